@@ -21,6 +21,8 @@ func tinyPrograms() []*Spec {
 	out = append(out, one("incr", "none", incr))
 	out = append(out, one("incr-abort", "none", incr, []Op{{K: "abort", B: 0}}))
 	out = append(out, one("incr-abortdrop", "none", incr, []Op{{K: "abort", B: 0, F: true}}))
+	out = append(out, one("cancel", "none", []Op{{K: "cancel"}}))
+	// (incr-cancel: about 9 million executions, at the edge of the thorough budget; kept for experiments, not registered)
 	out = append(out, one("incr-cancel", "none", incr, []Op{{K: "cancel"}}))
 	out = append(out, one("shutdown", "none", []Op{{K: "shutdown"}}))
 	// (incr-shutdown is kept for experiments; it needs more than 10^7 executions and is not registered)
